@@ -173,6 +173,96 @@ func checkC19(args []string) {
 			n++
 		}
 	}
+	// indexed storage: the same picture (at most 120 colours) as *image.NRGBA at the origin and as *image.Paletted -
+	// with exactly the colours used, with extra palette entries no pixel uses (opaque and transparent ones), as a crop
+	// with non-zero origin of a larger indexed parent whose other pixels use those extra entries
+	{
+		for pi, sz := range [][2]int{{17, 17}, {16, 15}, {33, 9}, {1, 1}} {
+			for _, alpha := range []string{"opaque", "binary", "graded"} {
+				w, h := sz[0], sz[1]
+				nc := 5 + rng.Intn(100)
+				pal := make(color.Palette, nc)
+				for k := range pal {
+					a := uint8(255)
+					switch alpha {
+					case "binary":
+						a = uint8(255 * (k % 2))
+					case "graded":
+						a = uint8(rng.Intn(256))
+					}
+					pal[k] = color.NRGBA{uint8(rng.Intn(256)), uint8(rng.Intn(256)), uint8(rng.Intn(256)), a}
+				}
+				if alpha != "opaque" {
+					pal[0] = color.NRGBA{10, 20, 30, 255}
+				}
+				idx := make([]uint8, w*h)
+				for k := range idx {
+					idx[k] = uint8(rng.Intn(nc))
+				}
+				plain := image.NewNRGBA(image.Rect(0, 0, w, h))
+				for k, v := range idx {
+					c := pal[v].(color.NRGBA)
+					plain.Pix[4*k], plain.Pix[4*k+1], plain.Pix[4*k+2], plain.Pix[4*k+3] = c.R, c.G, c.B, c.A
+				}
+				extra := append(append(color.Palette{}, pal...), color.NRGBA{1, 2, 3, 0}, color.NRGBA{200, 100, 50, 128}, color.NRGBA{9, 9, 9, 255})
+				mk := func(kind string) image.Image {
+					switch kind {
+					case "paletted":
+						p := image.NewPaletted(image.Rect(0, 0, w, h), pal)
+						copy(p.Pix, idx)
+						return p
+					case "paletted+unused-entries":
+						p := image.NewPaletted(image.Rect(0, 0, w, h), extra)
+						copy(p.Pix, idx)
+						return p
+					default: // crop at (3,2) of a parent whose other pixels use the extra entries
+						p := image.NewPaletted(image.Rect(0, 0, w+5, h+4), extra)
+						for k := range p.Pix {
+							p.Pix[k] = uint8(nc + rng.Intn(3))
+						}
+						for y := 0; y < h; y++ {
+							copy(p.Pix[(y+2)*p.Stride+3:], idx[y*w:(y+1)*w])
+						}
+						return p.SubImage(image.Rect(3, 2, 3+w, 2+h))
+					}
+				}
+				for ci, cfg := range []pixConfig{{Lossless: false}, {Lossless: true}, {Lossless: false, Exact: true}, {Lossless: true, Exact: true}, {Lossless: false, Sharp: true}, {Lossless: false, Dither: true}} {
+					o := *webp.DefaultOptions()
+					o.Lossless, o.Exact, o.UseSharpYUV = cfg.Lossless, cfg.Exact, cfg.Sharp
+					o.Method = 2
+					if cfg.Dither {
+						o.Preprocessing = 2
+					}
+					key := fmt.Sprintf("indexed/%dx%d/%s/%d colours/cfg%d#%d", w, h, alpha, nc, ci, pi)
+					refOut, err, pan := safeEncode(plain, &o)
+					if err != nil || pan != nil {
+						run.Violate("encode-fails|indexed", fmt.Sprintf("%s as NRGBA: err=%v panic=%v", key, err, pan), key)
+						continue
+					}
+					for _, kind := range []string{"paletted", "paletted+unused-entries", "paletted-crop"} {
+						img := mk(kind)
+						var before uint64
+						if pp, ok := img.(*image.Paletted); ok {
+							before = hashBytes(pp.Pix)
+						}
+						out, err, pan := safeEncode(img, &o)
+						run.Eval(key + "|" + kind)
+						if err != nil || pan != nil {
+							run.Violate("encode-fails|indexed|"+kind, fmt.Sprintf("%s as %s: err=%v panic=%v", key, kind, err, pan), key)
+							continue
+						}
+						if pp, ok := img.(*image.Paletted); ok && hashBytes(pp.Pix) != before {
+							run.Violate("caller-image-modified|indexed", fmt.Sprintf("%s as %s: Encode modified the caller's index buffer", key, kind), key)
+						}
+						if !bytes.Equal(out, refOut) {
+							run.Violate(fmt.Sprintf("output-depends-on-storage|%s|lossless=%v|alpha=%s", kind, cfg.Lossless, alpha),
+								fmt.Sprintf("%s: stored as %s the picture encodes to %d bytes, as *image.NRGBA to %d bytes (different content)", key, kind, len(out), len(refOut)), key)
+						}
+					}
+				}
+			}
+		}
+	}
 	run.Finish()
 }
 
